@@ -204,10 +204,37 @@ def stats(c, r):
     return d
 
 
+def optin_sbo(ctx):
+    """Opt-in configuration -DPIKA_DETAIL_ENABLE_ANY_SENDER_SBO (the header calls it buggy): thorough tier
+    (or VERIF_C18_SBO=1) only; reported separately, never a verdict.  The Lean model with Cfg.sbo = true
+    must still reproduce every output line; the ledger monitor counts the histories in which the
+    opt-in code leaves a moved-from embedded sender undestroyed (theorem C18_sbo_optin_leaks)."""
+    from vlib import compile_harness, run_e1, REPO
+    if ctx['tier'] != 'thorough' and os.environ.get('VERIF_C18_SBO') != '1':
+        return {}
+    src = os.path.join(REPO, 'libs/pika/execution_base/src/any_sender.cpp')
+    ok, hbin, log = compile_harness(
+        'e0_erase_sbo', 'e0/erase.cpp',
+        extra='-O1 -g -fsanitize=address,undefined -fno-sanitize-recover=undefined '
+              f'-DPIKA_DETAIL_ENABLE_ANY_SENDER_SBO \'-DERASE_ANY_SENDER_CPP="{src}"\'')
+    if not ok:
+        return {'optin_sbo': {'build': 'failed', 'log': log[-300:]}}
+    n = 20000 if ctx['tier'] == 'thorough' else 2000
+    cases = [gen(ctx['rng'], f'sbo{ctx["base_seed"]}n{i}', sbo=1) for i in range(n)]
+    res = run_e1(hbin, 'erase', cases, jobs=ctx['jobs'], tag='C18sbo')
+    acc = sum(1 for r in res if ' accept ' in r['verdict'])
+    leak = sum(1 for r in res if 'were never destroyed' in r['verdict'])
+    other = sum(1 for r in res if 'monitors FAIL' in r['verdict'] and 'were never destroyed' not in r['verdict'])
+    first = next((r['verdict'][:300] for r in res if ' accept ' not in r['verdict']), '')
+    return {'optin_sbo': {'histories': n, 'outputs_equal_to_model_Cfg_sbo_true': acc,
+                          'histories_with_undestroyed_moved_from_sender': leak,
+                          'histories_with_other_monitor_failures': other, 'first_divergence': first}}
+
+
 if __name__ == '__main__':
     e0check.run(dict(
         prop='C18', model='erase', harness='e0/erase.cpp', bin='e0_erase', gen=gen, nontrivial=nontrivial, stats=stats,
-        quick=4000, thorough=100000, extra=8000,
+        quick=4000, thorough=100000, extra=8000, extras=optin_sbo,
         rule='random histories (10-80 operations over 2-6 wrapper slots of kinds function / unique_function / unique_any_sender / any_sender; operations: default/payload construction, destruction, payload assignment by move or copy, reset, copy/move assignment, copy/move construction, swap, empty(), call, connect&&+start, connect const&+start; payloads small/large, move-only/copyable, returning/throwing on call, value/error/stopped/connect-throws, copy/move constructors armed to throw at a chosen construction; about 4% arbitrary possibly-invalid operations); non-trivial = at least one successful two-wrapper operation and one successful use; distinct = distinct history text',
         corr_name='E0: for every operation of the history, result and payload constructor/destructor event sequence printed by harness/e0/erase.cpp (real pika wrappers, ASan+UBSan) equal the output of the Lean model Erase.exec',
         assumptions=['shipped configuration only: the sender small-buffer optimisation (PIKA_DETAIL_ENABLE_ANY_SENDER_SBO) is off; the opt-in configuration is modelled (Cfg.sbo) and reported separately, not claimed',
